@@ -1,9 +1,19 @@
 package limiters
 
+import "reflect"
+
 // Verification-only accessors (injected by overlay, never part of the tree).
 
 // VerifHeldC01 is the number of permits currently held in the semaphore.
-func (s Semaphore) VerifHeldC01() int { return len(s.c) }
+// (written so that it also compiles against the scheduler-rewritten copy of
+// concurrency.go, where the channel is a vsched channel object)
+func (s Semaphore) VerifHeldC01() int {
+	var c any = s.c
+	if l, ok := c.(interface{ Len() int }); ok {
+		return l.Len()
+	}
+	return reflect.ValueOf(c).Len()
+}
 
 // VerifLimitersC01 returns the limiter of every key of the set.
 func (r *BucketSet) VerifLimitersC01() map[string]L {
